@@ -28,21 +28,24 @@ THEOREMS = ['C02_relabel_range', 'C02_relabel_same_partition', 'C02_relabel_mono
             # run-level statements on the extracted functions; hierarchy slice and spectral recursion inside the model
             'C02_spectral_split_good', 'C02_run_spectral_oracle', 'C02_spectral_full_partial', 'C02_run_given_consistent',
             'C02_run_und_sign_consistent', 'C02_run_finetune_und_labels', 'C02_run_finetune_dir_labels',
-            'C02_louvain_und_hierarchy']
-RULE = ('per routine: random structured networks n=3..9 (Erdos-Renyi at 3 densities, planted 2-3 groups, ring, star, two '
-        'components, complete, one isolated node; optional self-loops) with integer weights 0..4 (binary for potts, random '
-        'sign flips for the signed routines), directed where the routine accepts it, gamma in {1, 3/4, 5/4, 13/10}, all five '
-        'qtypes / four built-in objectives, initial partition none / random / one block / shuffled singletons / '
-        'non-contiguous and negative labels, hierarchy=True for the Louvain routines; non-trivial = at least one accepted '
-        'node move; distinct by hash of (routine, matrix, gamma, type, initial partition, seed)')
-ASSUMES = ['weights are small integers: every sum of weights the model treats as exact is exact in binary64; quantities '
+            'C02_louvain_und_hierarchy', 'C02_louvain_dir_run_labels']
+RULE = ('per routine: random structured networks (Erdos-Renyi at 3 densities, planted 2-3 groups, ring, star, two components, '
+        'complete, one isolated node; optional self-loops), n=3..9 mostly, n in {1,2} and 10..16 in ~18 %; weights: integers 1..4 '
+        '(binary for potts), dyadic k/4 (some below 1), integers up to 2^15, whole matrix scaled by 2^-26..2^-38, heavy self-loops; '
+        'random sign flips for the signed routines; directed where the routine accepts it; gamma in {1, 3/4, 5/4, 13/10} or {0, '
+        '1/2, 7/8, 3/2, 19/10}; all five qtypes / four built-in objectives; initial partition none / random / one block / shuffled '
+        'singletons / non-contiguous and negative labels, as ndarray or list; float or integer dtype; seed int or None; '
+        'hierarchy=True for the Louvain routines; a 44-node increasing-weight path (23..32 sweeps); 131..140-node sparse networks '
+        'with > 127 modules (direct oracle); given-partition and spectral cases n=1..12; non-trivial = at least one accepted node '
+        'move; distinct by hash of (routine, matrix, gamma, type, initial partition, seed)')
+ASSUMES = ['weights are integers or dyadic rationals with total weight < 2^23: every sum of weights the model treats as exact is exact in binary64; quantities '
            'obtained by division are compared with tolerance 1e-9',
            'which node moves where (node order, argmax, > 1e-10, number of levels) is decided by the implementation on '
            'floats and handed to the model as the recorded move list; the theorems hold for every move list',
            'domain: positive total weight (signed routines: s0+s1 > 0; community_louvain negative_*: s0 > 0 and sum(W) > 0)']
-TRUSTED = ['spectral bisection of modularity_und/_dir without kci (LAPACK eig/eigh + Kernighan-Lin sweep) is an oracle: '
-           'proved for every oracle is only that the result is a partition labelled exactly 1..k and that the closing '
-           'formula is the definitional Q of whatever partition was produced',
+TRUSTED = ['spectral bisection of modularity_und/_dir without kci: the DECISION per module (LAPACK eig/eigh + Kernighan-Lin sweep) is '
+           'an oracle recorded from the run (scipy.linalg.eig/eigh and ls2ci wrapped); the recursion around it (null-module test, '
+           'where(+-1) selections, DFS order, ls2ci, closing statement) is modelled, proved for every oracle and re-executed',
            'hook events of bct.utils._verif (BCTPY_VERIF=1) are trusted to be the state of the run']
 
 
@@ -58,7 +61,7 @@ def check_pair(ctx, case, ci, q, key_fn, what, n):
 def run(ctx):
     import bct
     lines, pend = [], []
-    per = ctx.scale(70, 2000)
+    per = ctx.scale(70, 1000)
     for fn in ROUTINES:
         R = ROUTINES[fn]
         done = 0
@@ -132,20 +135,40 @@ def run(ctx):
                 lines.append(line)
                 pend.append(('probtune', case2, ci2, q2, steps))
 
-    # ---------------- given partition: modularity_und / modularity_dir / modularity_und_sign; spectral und/dir
+    # ---------------- networks with more than 127 nodes AND more than 127 modules in the result (direct oracle only: the
+    # module vectors / returned labels must not be held in a narrow integer type). A few weighted edges among the first
+    # nodes, everything else isolated: isolated nodes are never moved, so the result has > 127 modules.
     r = ctx.rng
+    for fn in (['modularity_louvain_und', 'modularity_louvain_und_sign', 'modularity_finetune_und', 'community_louvain']
+               + (['modularity_finetune_dir', 'modularity_finetune_und_sign', 'modularity_louvain_dir'] if ctx.thorough else [])):
+        case = modq.big_sparse_case(r, fn)
+        n = case['n']
+        try:
+            ci, q, levels = modq.call_impl(case)
+        except Timeout:
+            ctx.fail(fn + ':terminates', 'no result within 20 s', pub(case)); continue
+        except Exception as e:
+            ctx.fail(fn + ':raises', 'raised %r' % (e,), pub(case)); continue
+        ctx.case(pub(case), nontrivial=True)
+        ctx.count('fn:' + fn); ctx.count('family:big-sparse'); ctx.count('modules>127', int(len(set(int(x) for x in ci)) > 127))
+        check_pair(ctx, case, ci, q, fn, 'final result (n=%d, %d modules)' % (n, len(set(int(x) for x in ci))), n)
+
+    # ---------------- given partition: modularity_und / modularity_dir / modularity_und_sign; spectral und/dir
     for t in range(ctx.scale(60, 600)):
-        n = r.randint(2, 9)
+        n = r.randint(1, 12) if r.random() < 0.25 else r.randint(2, 9)
         for which in ('und', 'dir', 'sign'):
-            W, fam = modq.gen_graph(r, n, which == 'dir', signed=(which == 'sign'))
-            W0, W1, s0, s1 = modq.parts(W)
+            wmode = r.choice(['int', 'int', 'dyadic', 'selfloops'])
+            Wx, fam = modq.gen_graph(r, n, which == 'dir', signed=(which == 'sign'), wmode=wmode)
+            W0, W1, s0, s1 = modq.parts(Wx)
             if (which == 'sign' and s0 + s1 == 0) or (which != 'sign' and s0 <= 0):
                 continue
-            g = r.choice(GAMMAS)
+            g = r.choice(GAMMAS) if r.random() < 0.75 else r.choice(modq.GAMMAS_WIDE)
             kci, how = modq.gen_ci(r, n)
             if kci is None:
                 kci = [r.randint(1, 3) for _ in range(n)]
-            A = np.array(W, dtype=float)
+            A = np.array([[float(x) for x in row] for row in Wx], dtype=float)
+            W = modq.jsonable(Wx)            # exact (dyadic) values as JSON numbers; Wx keeps the Fractions for the oracle
+            ctx.count('given:weights:' + wmode)
             if which == 'sign':
                 qt = r.choice(QTYPES)
                 case = {'fn': 'modularity_und_sign', 'W': W, 'ci': kci, 'qtype': qt}
@@ -155,9 +178,9 @@ def run(ctx):
                 ctx.count('fn:modularity_und_sign')
                 ctx.check(valid_labels(ci, n) and list(ci) == canon(kci), 'modularity_und_sign:labels',
                           'returned labels are not the given partition relabelled 1..k', case)
-                tq = modq.q_sign(W, kci, F(1), qt)
+                tq = modq.q_sign(Wx, kci, F(1), qt)
                 ctx.check(close(tq, q), 'modularity_und_sign:q', 'q=%r, modularity of the given partition is %s' % (q, tq), case)
-                lines.append('und_sign ' + enc_mat(W) + ' %d ' % modq.QTYPES_IDX[qt] + enc_list(kci))
+                lines.append('und_sign ' + enc_mat(Wx, modq.enc_qb) + ' %d ' % modq.QTYPES_IDX[qt] + enc_list(kci))
                 pend.append(('und_sign', case, list(ci), q, None))
             else:
                 f = bct.modularity_dir if which == 'dir' else bct.modularity_und
@@ -168,9 +191,9 @@ def run(ctx):
                 ctx.case(case, nontrivial=True)
                 ctx.count('fn:%s(kci)' % name)
                 ctx.check(canon(list(ci)) == canon(kci), name + ':given_partition', 'the given partition is not returned', case)
-                tq = modq.q_def(W, kci, g, und=(which == 'und'))
+                tq = modq.q_def(Wx, kci, g, und=(which == 'und'))
                 ctx.check(close(tq, q), name + ':q', 'q=%r, modularity of the given partition is %s' % (q, tq), case)
-                lines.append('given %d ' % (which == 'dir') + enc_mat(W) + ' ' + enc_q(g) + ' ' + enc_list(kci))
+                lines.append('given %d ' % (which == 'dir') + enc_mat(Wx, modq.enc_qb) + ' ' + enc_q(g) + ' ' + enc_list(kci))
                 pend.append(('given', case, None, q, None))
                 # spectral optimisation (no kci): the partition is LAPACK's business; labels 1..k and q consistent
                 case2 = {'fn': name, 'W': W, 'gamma': str(g), 'kci': None}
@@ -186,13 +209,13 @@ def run(ctx):
                 ctx.case(case2, nontrivial=len(set(ci)) > 1)
                 ctx.count('fn:%s(spectral)' % name)
                 ctx.check(valid_labels(ci, n), name + ':labels', 'labels are not exactly 1..k: %s' % list(ci), case2)
-                tq = modq.q_def(W, [int(x) for x in ci], g, und=(which == 'und'))
+                tq = modq.q_def(Wx, [int(x) for x in ci], g, und=(which == 'und'))
                 ctx.check(close(tq, q), name + ':q', 'q=%r, modularity of the returned partition is %s' % (q, tq), case2)
-                lines.append('given %d ' % (which == 'dir') + enc_mat(W) + ' ' + enc_q(g) + ' ' + enc_list([int(x) for x in ci]))
+                lines.append('given %d ' % (which == 'dir') + enc_mat(Wx, modq.enc_qb) + ' ' + enc_q(g) + ' ' + enc_list([int(x) for x in ci]))
                 pend.append(('given', case2, None, q, None))
                 # the recursion around the numeric kernel (recur from arange(n), null-module test, where(mod_asgn == +-1), DFS
                 # order, ls2ci, closing statement) re-executed by the extracted run_spectral_table on the recorded decisions
-                lines.append(modq.spectral_line(which == 'dir', W, g, table))
+                lines.append(modq.spectral_line(which == 'dir', Wx, g, table))
                 pend.append(('spectral', case2, [int(x) for x in ci], q, None))
                 ctx.count('spectral_splits', sum(1 for _, a in table if a is not None))
 
